@@ -967,6 +967,12 @@ fn g_builder(t: &mut Tape) -> Scenario {
     if t.chance(200) {
         tr.min_round_ns = tr.max_round_ns + 1_000_000; // min > max is accepted by the builder
     }
+    // an explicit source address of the other address family (both are local to the host)
+    if t.chance(80) {
+        tr.explicit_source = true;
+        tr.interface = None;
+        tr.source = crate::scenario::default_source(!tr.v6);
+    }
     sc.stable = false;
     sc
 }
